@@ -317,6 +317,13 @@ class E2:
                 if c.startswith(("llvm.memcpy", "llvm.memmove")):
                     n = self.as_lin(V(2), path)
                     if not n.is_const(): raise Unsupported("memcpy of symbolic length")
+                    sp_, dp_ = V(1), V(0)
+                    if isinstance(sp_, Ptr) and isinstance(dp_, Ptr) and isinstance(sp_.base, tuple) and sp_.base[0] == "alloca" and isinstance(dp_.base, tuple) and dp_.base[0] == "alloca":
+                        so_ = self.apply(sp_.off, path); do_ = self.apply(dp_.off, path)
+                        if so_.is_const() and do_.is_const() and path.local.get((sp_.base, so_.c, n.c)) is None:
+                            # indeterminate bytes moved from one local to another (struct padding): the destination stays unwritten - reading
+                            # it later is still refused
+                            path.local.pop((dp_.base, do_.c, n.c), None); continue
                     v = self.load(V(1), n.c, "i%d" % (8 * n.c), path); self.store(V(0), v, n.c, path); continue
                 if c.startswith(("llvm.dbg", "llvm.lifetime")): continue
                 g = self.mod.fn(c)
